@@ -8,8 +8,12 @@
    - trim_whitespace (src/NifUtil.cpp:13-34) calls isspace(char). [runtime] In glibc's C locale the
      space set is {9,10,11,12,13,32}; for bytes >= 0x80 (negative char: formally undefined behaviour
      of isspace) glibc's table answers "not a space". Modelled so.
-   - std::regex "/+|\\+" replaced by one backslash: every MAXIMAL RUN OF THE SAME separator becomes one
-     backslash, so the mixed pair "/\" becomes TWO backslashes (measured).
+   - std::regex "[/\\]+" replaced by one backslash: every maximal run of separators (mixed or not)
+     becomes one backslash (repair C19-mixed-separators; before it the pattern was "/+|\\+" and the
+     mixed pair "/\" became TWO backslashes).
+   - terrain files only (repair C19-terrain-restrip): "^Data\\(?=textures\\)" (icase) -> "": a leading
+     Data\ that is directly followed by textures\ is taken off before the search (the Data\ prefix is
+     added back at the end), so that an already clean terrain path is left alone.
    - the lazy search ^(?!textures\\).*?\\textures\\ with icase: nothing is removed when the string
      starts with textures\ ; otherwise everything up to and including the FIRST \textures\ is
      removed, provided no '\n' or '\r' occurs before it ([runtime] libstdc++'s ECMAScript '.'
@@ -53,17 +57,18 @@ Definition trim_ws (p : list N) : list N := drop_ws_end (drop_ws p).
 
 Definition is_sep (c : N) : bool := (c =? FS) || (c =? BS).
 
-(* regex_replace(tex, "/+|\\+", "\\"): [prev] is the previous input byte (0 at the start: not a
-   separator). A separator equal to its predecessor continues the current run and emits nothing;
-   any other separator starts a new run and emits one backslash. *)
-Fixpoint collapse_from (prev : N) (p : list N) : list N :=
+(* regex_replace(tex, "[/\\]+", "\\") (since the repair C19-mixed-separators; it was "/+|\\+", which
+   turned "/\" into two backslashes): [insep] says that the previous input byte was a separator.
+   A separator behind a separator continues the current run and emits nothing; a separator behind
+   anything else starts a run and emits one backslash. *)
+Fixpoint collapse_from (insep : bool) (p : list N) : list N :=
   match p with
   | [] => []
   | c :: r => if is_sep c
-              then (if c =? prev then collapse_from c r else BS :: collapse_from c r)
-              else c :: collapse_from c r
+              then (if insep then collapse_from true r else BS :: collapse_from true r)
+              else c :: collapse_from false r
   end.
-Definition collapse (p : list N) : list N := collapse_from 0 p.
+Definition collapse (p : list N) : list N := collapse_from false p.
 
 (* ASCII case folding of regex_constants::icase in the C locale *)
 Definition lower (c : N) : N := if (65 <=? c) && (c <=? 90) then c + 32 else c.
@@ -103,6 +108,10 @@ Definition strip_to_textures (p : list N) : list N :=
        | None => p
        end.
 
+(* terrain files: regex_replace(tex, "^Data\\(?=textures\\)", "") with icase *)
+Definition DATATEX : list N := DATA ++ TEX.                                 (* Data\textures\ *)
+Definition strip_data_tex (p : list N) : list N := if starts_ci DATATEX p then skipn 5 p else p.
+
 (* regex_replace(tex, "^\\+", "") *)
 Fixpoint drop_bs (p : list N) : list N :=
   match p with
@@ -127,7 +136,8 @@ Section Clean.
       | [] => []                                   (* if (tex.empty()) return tex; *)
       | t =>
         let c := collapse t in
-        let s := drop_bs (strip_to_textures c) in
+        let c1 := if terrain then strip_data_tex c else c in
+        let s := drop_bs (strip_to_textures c1) in
         let s1 := if needs_prefix && isrel s then add_prefix TEX s else s in
         if terrain && isrel s1 then add_prefix DATA s1 else s1
       end
